@@ -859,7 +859,9 @@ impl parity_scale_codec::Input for FaultInput<'_> {
 
 fn exec<const B: usize, const L: usize>(m: &mut Mon, op: &str, a: &[Arg]) {
     let by = (B + 7) / 8;
-    tally_enter(op);
+    if !m.is_light() {
+        tally_enter(op); // evidence only; too slow under Miri
+    }
     match op {
         // ---- byte-slice parsers -------------------------------------------------
         "try_from_be_slice" => {
@@ -2004,13 +2006,24 @@ fn workload(m: &mut Mon, bits: usize) {
     let bd: Vec<Vec<u8>> = gen::boundary(bits).iter().map(|l| pad_be(&be_min(l), by)).collect();
 
     // (a) valid encodings of boundary / hostile values with one field mutated.
+    let mut lr = m.stream("c17.light", bits);
     for (i, mag) in keys.iter().chain(bd.iter()).enumerate() {
         let full = i < keys.len();
         for &f in FAMILIES {
             if !m.keep() {
                 continue;
             }
-            for v in fam_variants(f, bits, mag, full) {
+            let vars = fam_variants(f, bits, mag, full);
+            if m.is_light() {
+                // Miri / memcheck: a few variants of many encodings rather than
+                // all variants of very few.
+                for _ in 0..vars.len().min(4) {
+                    let v: &Vec<u8> = lr.pick(&vars[..]);
+                    emit(m, f, bits, v);
+                }
+                continue;
+            }
+            for v in vars {
                 emit(m, f, bits, &v);
             }
         }
@@ -2082,11 +2095,13 @@ fn workload(m: &mut Mon, bits: usize) {
     // (b) every 1-byte and every 2-byte input, exhaustively.
     if m.is_light() {
         let mut r = m.stream("c17.sweep.light", bits);
-        for _ in 0..m.iters(48) {
+        for i in 0..m.iters(48) {
             let k = r.range(0, 2);
             let b = r.bytes(k);
-            for op in BIN_OPS {
-                m.case(op, bits, vec![ab(&b)]);
+            for (j, op) in BIN_OPS.iter().enumerate() {
+                if (i + j) % 6 == 0 {
+                    m.case(op, bits, vec![ab(&b)]);
+                }
             }
         }
     } else {
@@ -2116,8 +2131,9 @@ fn workload(m: &mut Mon, bits: usize) {
 
     // (c) random byte strings up to BYTES+16 and randomly mutated encodings.
     let mut r = m.stream("c17.random", bits);
-    for i in 0..m.iters(1000) {
-        if i % 128 == 0 && m.time_up() {
+    let light = m.is_light();
+    for i in 0..m.iters(3000) {
+        if (light || i % 128 == 0) && m.time_up() {
             return;
         }
         let len = match r.below(8) {
@@ -2128,14 +2144,19 @@ fn workload(m: &mut Mon, bits: usize) {
             _ => r.range(0, by + 16),
         };
         let b = rand_bytes(&mut r, len);
-        for op in BIN_OPS {
-            m.case(op, bits, vec![ab(&b)]);
+        for (j, op) in BIN_OPS.iter().enumerate() {
+            // light lanes: unstructured bytes rarely pass a header; spend less there
+            if !light || (i + j) % 6 == 0 {
+                m.case(op, bits, vec![ab(&b)]);
+            }
         }
         m.case("bigint.try_from", bits, vec![ab(&b), Arg::N(r.below(2) as u128)]);
         m.case("der.anyref", bits, vec![ab(&b), Arg::N(if r.chance(3, 4) { 2 } else { r.below(256) as u128 })]);
-        for &(op, n) in PG_FIXED {
+        for (j, &(op, n)) in PG_FIXED.iter().enumerate() {
             let x = rand_bytes(&mut r, n);
-            m.case(op, bits, vec![ab(&x)]);
+            if !light || (i + j) % 4 == 0 {
+                m.case(op, bits, vec![ab(&x)]);
+            }
         }
         let mag = hostile_mag(&mut r, bits);
         for &f in FAMILIES {
@@ -2162,7 +2183,7 @@ fn workload(m: &mut Mon, bits: usize) {
             m.case("scale.compact.input", bits, vec![ab(&e), Arg::N(k as u128), Arg::N(flags)]);
         }
         // digit sequences
-        if i % 4 == 0 {
+        {
             let base = *r.pick(&[0u64, 1, 2, 3, 10, 16, 255, 256, 10000, 1 << 32, u64::MAX, u64::MAX - 1]);
             let n = r.range(0, if base < 16 { bits + 3 } else { by / 2 + 3 });
             let digits: Vec<u64> = (0..n)
@@ -2182,11 +2203,18 @@ fn workload(m: &mut Mon, bits: usize) {
     // Text decoders.
     let mut tm: Vec<Vec<u8>> = keys.clone();
     tm.extend(bd.iter().step_by(6).cloned());
-    for s in text_corpus(bits, &tm) {
+    if m.is_light() {
+        // building the text corpus is itself expensive under Miri / memcheck
+        tm = tm.into_iter().step_by(9).collect();
+    }
+    for (i, s) in text_corpus(bits, &tm).iter().enumerate() {
+        if i % 64 == 0 && m.time_up() {
+            return;
+        }
         if !m.keep() {
             continue;
         }
-        emit_text(m, bits, &s);
+        emit_text(m, bits, s);
     }
     if m.time_up() {
         return;
@@ -2239,8 +2267,8 @@ fn workload(m: &mut Mon, bits: usize) {
         }
     }
     let mut r = m.stream("c17.text", bits);
-    for i in 0..m.iters(1200) {
-        if i % 128 == 0 && m.time_up() {
+    for i in 0..m.iters(4000) {
+        if (light || i % 128 == 0) && m.time_up() {
             return;
         }
         let s = random_text(&mut r, bits);
@@ -2257,10 +2285,12 @@ fn workload(m: &mut Mon, bits: usize) {
 fn main() {
     let mut m = Mon::new("C17", dispatch);
     if !m.replay_if_requested() {
-        for &bits in WIDTHS {
-            if m.width_enabled(bits) {
-                workload(&mut m, bits);
-            }
+        let ws: Vec<usize> = WIDTHS.iter().copied().filter(|&b| m.width_enabled(b)).collect();
+        // Light lanes (Miri, memcheck) rarely get through every width inside their
+        // time budget: each shard starts at a different width.
+        let start = if m.is_light() { ((m.cfg.shard * 8 + m.cfg.seed * 3) % ws.len().max(1) as u64) as usize } else { 0 };
+        for i in 0..ws.len() {
+            workload(&mut m, ws[(start + i) % ws.len()]);
         }
     }
     tally_report(&mut m);
